@@ -14,6 +14,7 @@ func TestCheck(t *testing.T) {
 	}
 	r := runner.Start("C18", "model_checking")
 	schedPart(r, t)
+	mgmtSchedPart(r, t)
 	if _, child := runner.IsShard(); !child && runner.ReplayPath() == "" {
 		crashPart(r)
 		failurePart(r)
